@@ -65,8 +65,11 @@ def structparser(m: Match[str]) -> List[str]:
     # Split the format string into a list of 'q', '4h' etc.
     formatlist = re.findall(STRUCT_SPLIT_RE, m.group('fmt'))
     # Now deal with multiplicative factors, 4h -> hhhh etc.
-    fmt = ''.join([f[-1] * int(f[:-1]) if len(f) != 1 else
-                   f for f in formatlist])
+    try:
+        fmt = ''.join([f[-1] * int(f[:-1]) if len(f) != 1 else
+                       f for f in formatlist])
+    except OverflowError:
+        raise ValueError(f"A repeat count in the struct-like format '{m.group(0)}' is too large.")
     if endian in '@=':
         # Native endianness
         tokens = [REPLACEMENTS_NE[c] for c in fmt]
